@@ -69,7 +69,10 @@ def run_root(P, key, contract=None, e3=True, time_budget=120, I=None, cut_set=No
     try:
         args = root_args(I, inst, st, contract)
         res['args'] = args
-        outs = I.run_root(inst, args, st, key)
+        from . import mm
+        outs = []
+        for s_i, a_i in mm.root_states(I, inst, st, args):
+            outs += I.run_root(inst, a_i, s_i, key)
         res['outcomes'] = len(outs)
         res['results'] = outs
     except Unsupported as e:
@@ -92,11 +95,17 @@ if __name__ == '__main__':
     for inst in xs:
         from . import contracts
         vs = contracts.variants_for(P, inst)
+        import os as _os
+        if _os.environ.get('MCAI_VARIANT'):
+            vs = [v for v in vs if _os.environ['MCAI_VARIANT'] in v[0]] or vs
+            print('variant', vs[0][0])
         contract = vs[0][1]
         from . import e2all
         r = run_root(P, inst.key, contract, cut_set=None if '--nocut' in sys.argv else e2all.cut_set_for(P) - {inst.key})
         if not r['error']:
             contracts.post_invariants(r['interp'], inst, r['results'], r.get('args', []))
+            from . import mm
+            mm.check_root_post(r['interp'], inst, r['results'], r.get('args', []))
             if vs[0][2]:
                 vs[0][2](r['interp'], inst, r['results'])
         I = r['interp']
